@@ -131,6 +131,8 @@ MutBases == { Pkt(4, 3, <<Uid(32), Unk(8)>>, 20), Pkt(4, 3, <<Uid(4), Uid(4)>>, 
               Pkt(4, 3, <<Uid(32), Ck("foreign", 104), Auth("ok", 256, <<>>)>>, 0),
               Pkt(5, 3, <<Uid(32), Ck("v256", 104), Draft("ok"), RefReq(16, "in"), Ph(104), Auth("ok", 256, <<>>)>>, 0),
               Pkt(5, 3, <<Uid(32), Ck("v256", 104), Auth("wrongKey", 256, <<>>), Draft("ok")>>, 0) }
+            \cup { Pkt(4, 3, <<Uid(32), Ck("junk", n), Auth("ok", 256, <<>>)>>, 0) : n \in {0, 4, 20, 24, 36} }
+            \cup { Pkt(5, 3, <<Ck("junk", n), Draft("ok"), Auth("empty", 256, <<>>)>>, 0) : n \in {1, 5, 21, 22} }
 LenVals == {"0", "1", "3", "4", "m1", "p1", "max"}
 MutsOf(b) ==
   { [m |-> "trunc", at |-> j, v |-> d] : j \in 0..Len(b.items), d \in {"m1", "0", "p1"} }
